@@ -453,6 +453,137 @@ def normrtRange (lo hi : Nat) : Nat × Nat × List String := Id.run do
       if firsts.size < 6 then firsts := firsts.push s!"{l}>{got}"
   return (sum, odd, firsts.toList)
 
+/-! ## the `msearch` stream: multi-term queries (prefix / wildcard / regexp / fuzzy / term range)
+
+The code (search/searcher/search_term_prefix.go, search_regexp.go, search_fuzzy.go, search_term_range.go,
+search_multi_term.go): enumerate the field dictionary, one `TermSearcher` per enumerated term with boost = the query's boost
+(fuzzy: `boost * (1 - distance/min(len))`, 1 for the term itself), all under ONE disjunction scored by
+`NewCompositeSumScorer()` (no coord, no query norm): the hit's explanation is "sum of:" over the matching constituents. The
+specification: one constituent per DISTINCT term of the document that satisfies the predicate. -/
+
+inductive MQ where
+  | pre (field p : String) (boost : F)
+  | wild (field pat : String) (boost : F)
+  | re (field pat : String) (boost : F)
+  | fuzzy (field term : String) (k : Nat) (boost : F)
+  | range (field lo hi : String) (incLo incHi : Bool) (boost : F)
+
+def MQ.field : MQ → String
+  | .pre f _ _ | .wild f _ _ | .re f _ _ | .fuzzy f _ _ _ | .range f _ _ _ _ _ => f
+def MQ.boost : MQ → F
+  | .pre _ _ b | .wild _ _ b | .re _ _ b | .fuzzy _ _ _ b | .range _ _ _ _ _ b => b
+
+def parseMQ (s : String) : Option MQ :=
+  match s.splitOn "," with
+  | ["P", f, p, b] => (parseF b).map (MQ.pre f p)
+  | ["W", f, p, b] => (parseF b).map (MQ.wild f p)
+  | ["R", f, p, b] => (parseF b).map (MQ.re f p)
+  | ["F", f, t, k, b] => match k.toNat?, parseF b with
+      | some k, some b => some (MQ.fuzzy f t k b)
+      | _, _ => none
+  | ["G", f, lo, hi, il, ih, b] => (parseF b).map (MQ.range f lo hi (il == "1") (ih == "1"))
+  | _ => none
+
+/-- one position of a (restricted) regular expression: any char, a literal, or a class of chars and ranges -/
+inductive ReAtom where
+  | any
+  | lit (c : Char)
+  | cls (singles : List Char) (ranges : List (Char × Char))
+  deriving Inhabited
+
+def ReAtom.ok : ReAtom → Char → Bool
+  | .any, _ => true
+  | .lit c, x => c == x
+  | .cls ss rs, x => ss.contains x || rs.any fun (lo, hi) => lo ≤ x && x ≤ hi
+
+/-- items of one alternative: atom, starred? (`none` = syntax outside the generated subset) -/
+partial def parseReSeq (cs : List Char) (acc : List (ReAtom × Bool)) : Option (List (ReAtom × Bool)) :=
+  let star (a : ReAtom) (rest : List Char) : Option (List (ReAtom × Bool)) := match rest with
+    | '*' :: r => parseReSeq r ((a, true) :: acc)
+    | r => parseReSeq r ((a, false) :: acc)
+  match cs with
+  | [] => some acc.reverse
+  | '.' :: r => star .any r
+  | '[' :: r =>
+    let (body, r2) := r.span (· != ']')
+    let rec cls (b : List Char) (ss : List Char) (rs : List (Char × Char)) : ReAtom := match b with
+      | lo :: '-' :: hi :: t => cls t ss ((lo, hi) :: rs)
+      | c :: t => cls t (c :: ss) rs
+      | [] => .cls ss rs
+    match r2 with
+    | ']' :: r3 => star (cls body [] []) r3
+    | _ => none
+  | c :: r => if c.isAlphanum then star (.lit c) r else none
+
+partial def reSeqMatch : List (ReAtom × Bool) → List Char → Bool
+  | [], cs => cs.isEmpty
+  | (a, false) :: rest, c :: cs => a.ok c && reSeqMatch rest cs
+  | (_, false) :: _, [] => false
+  | (a, true) :: rest, cs => reSeqMatch rest cs || (match cs with
+      | c :: cs' => a.ok c && reSeqMatch ((a, true) :: rest) cs'
+      | [] => false)
+
+/-- anchored match of `alt1|alt2|…` (optionally wrapped in one pair of parentheses) -/
+def reMatch (pat w : String) : Option Bool :=
+  let p := if pat.startsWith "(" && pat.endsWith ")" then strDropRight (strDrop pat 1) 1 else pat
+  ((p.splitOn "|").mapM fun alt => parseReSeq alt.toList []).map fun alts => alts.any fun a => reSeqMatch a w.toList
+
+/-- `*` = any string, `?` = any char (query.go `wildcardRegexpReplacer`) -/
+def globMatch (pat w : String) : Bool :=
+  reSeqMatch (pat.toList.map fun c => if c == '*' then (ReAtom.any, true) else if c == '?' then (ReAtom.any, false) else (ReAtom.lit c, false)) w.toList
+
+/-- edit distance with adjacent transpositions (optimal string alignment), as the Levenshtein automata built with
+`transposition = true` accept -/
+def osaDist (a b : String) : Nat := Id.run do
+  let xs := a.toList.toArray
+  let ys := b.toList.toArray
+  let n := xs.size
+  let m := ys.size
+  let mut d : Array (Array Nat) := Array.replicate (n + 1) (Array.replicate (m + 1) 0)
+  for i in [0:n+1] do
+    d := d.set! i ((d[i]!).set! 0 i)
+  for j in [0:m+1] do
+    d := d.set! 0 ((d[0]!).set! j j)
+  for i in [1:n+1] do
+    for j in [1:m+1] do
+      let cost := if xs[i-1]! == ys[j-1]! then 0 else 1
+      let mut v := min (min ((d[i-1]!)[j]! + 1) ((d[i]!)[j-1]! + 1)) ((d[i-1]!)[j-1]! + cost)
+      if i > 1 && j > 1 && xs[i-1]! == ys[j-2]! && xs[i-2]! == ys[j-1]! then
+        v := min v ((d[i-2]!)[j-2]! + 1)
+      d := d.set! i ((d[i]!).set! j v)
+  return (d[n]!)[m]!
+
+/-- does the dictionary term `w` satisfy the query's predicate (`none`: pattern outside the modelled subset) -/
+def MQ.sat (q : MQ) (w : String) : Option Bool :=
+  match q with
+  | .pre _ p _ => some (w.startsWith p)
+  | .wild _ p _ => some (globMatch p w)
+  | .re _ p _ => reMatch p w
+  | .fuzzy _ t k _ => some (osaDist t w ≤ k)
+  | .range _ lo hi il ih _ => some ((if il then lo ≤ w else lo < w) && (if ih then w ≤ hi else w < hi))
+
+/-- the boost the term searcher of `w` is built with (search_multi_term.go `makeBatchSearchers`; search_fuzzy.go
+`boostFromDistance`) -/
+def MQ.termBoost (q : MQ) (w : String) : F :=
+  match q with
+  | .fuzzy _ t _ b =>
+    if w == t then b * 1.0
+    else b * (1.0 - (floatOfNat (osaDist t w) / floatOfNat (min t.length w.length)))
+  | _ => q.boost
+
+/-- `~word/k=tree~word/k=tree…` after the main tree -/
+partial def parseTermTrees (cs : List Char) (acc : List (String × Nat × Expl Float)) : Option (List (String × Nat × Expl Float)) :=
+  match cs with
+  | [] => some acc.reverse
+  | '~' :: r =>
+    let (hd, r2) := r.span (· != '=')
+    match (String.ofList hd).splitOn "/", r2 with
+    | [w, k], '=' :: r3 => match k.toNat?, parseExplAux r3 with
+      | some k, some (t, r4) => parseTermTrees r4 ((w, k, t) :: acc)
+      | _, _ => none
+    | _, _ => none
+  | _ => none
+
 /-! ## the ops -/
 
 /-- `agree`: model result = implementation result. When they differ and the only failure is the (known) idf node, the
@@ -738,6 +869,80 @@ def c17step (_ : Unit) (op : String) (impl : String) : Unit × String :=
             (m, verdictOf (m == impl) (rootFail ++ fails ++ simFail ++ segFail ++ nodeFail' ++ partFail) (ulpBranch (logUlp t) :: brs ++ partBr ++ segBr))
           | _, _, _ => ("unparsable-tree", "ok")
         | _ => ("unparsable-result", "ok")
+    | ["mhit", cfg, corpus, mqS, _kind, docid] =>
+        match splitHead impl 3, parseMQ mqS with
+        | [plainS, explS, nsegS, restS], some q => match parseExplAux restS.toList, parseF explS with
+          | some (t, restCs), some es => match parseTermTrees restCs [] with
+            | some tts =>
+              let inst := snapField (((idfNodes t) ++ (tts.map (·.2.2)).flatMap idfNodes).map (·.value))
+              let rb (x : Expl F) : String := match rebuild inst x with
+                | some mt => mt.render
+                | none => "model-cannot-rebuild"
+              let m := (match rebuild inst t with
+                  | some mt => fbits mt.value ++ " " ++ fbits mt.value ++ " " ++ nsegS ++ " " ++ mt.render
+                  | none => "model-cannot-rebuild") ++
+                String.join (tts.map fun (w, k, tt) => s!"~{w}/{k}=" ++ rb tt)
+              let rootFail := (if parseF plainS |>.map (sameBits · t.value) |>.getD false then [] else ["explain-root-vs-score"]) ++
+                (if sameBits es t.value then [] else ["score-field-vs-explanation-root"])
+              let (fails, brs) := termTreeChecks inst t true
+              let docs := parseDCorpus false corpus
+              let (partFail, partBr) : List String × List String :=
+                match docs.find? (·.id == docid) with
+                | none => ([], ["model-has-no-such-document"])
+                | some d =>
+                  let held := ((d.fields.filter (·.name == q.field)).flatMap (·.tokens)).eraseDups
+                  match held.mapM (fun w => (q.sat w).map fun ok => (w, ok)) with
+                  | none => ([], ["model-cannot-parse"])
+                  | some sats =>
+                    let matching := (sats.filter (·.2)).map (·.1)
+                    -- the single-term score node of every matching term, with the boost the multi-term searcher gives it
+                    let expected : Option (List String) := matching.mapM fun w =>
+                      match tts.find? (·.1 == w) with
+                      | none => none
+                      | some (_, _, tt) => (statOf inst tt).map fun st =>
+                          (@gExplain inst (@gScorerAvg inst st.k1 st.b st.avgdl (q.termBoost w) st.n st.bigN) st.f st.dl).render
+                    match expected with
+                    | none => (["parts:missing-term-tree"], [])
+                    | some exp =>
+                      if kindName t != "sum" then (["parts:multi-term-root-not-sum"], [])
+                      else
+                        let got := t.children.map (·.render)
+                        let srt (l : List String) := (l.toArray.qsort (· < ·)).toList
+                        let segBr := (if matching.any (fun w => match tts.find? (·.1 == w) with
+                              | some e => decide (e.2.1 ≥ 3)
+                              | none => false)
+                            then ["m-term-in-3plus-segments"] else ["m-terms-in-fewer-segments"]) ++
+                          (if matching.length ≥ 2 then ["m-multi-part"] else ["m-single-part"]) ++
+                          [match q with | .pre .. => "m-prefix" | .wild .. => "m-wildcard" | .re .. => "m-regexp" | .fuzzy .. => "m-fuzzy" | .range .. => "m-range"]
+                        if srt got == srt exp then
+                          -- score = sum of the distinct parts, in the order the implementation lists them (bit-exact)
+                          let sumOk := sameBits t.value (@gMsgSum inst (t.children.map (·.value)))
+                          ((if sumOk then [] else ["multi-term-score-not-sum-of-distinct-parts"]), "m-parts-ok" :: segBr)
+                        else if srt got.eraseDups == srt exp.eraseDups && got.length > exp.length &&
+                            exp.eraseDups.all (fun x => got.count x ≥ exp.count x) then
+                          -- some constituent more often than the document has distinct matching terms with that score part
+                          -- (two distinct terms may have equal statistics, hence multisets): the score counts a term's part several times
+                          let kept := t.children.foldl (fun (acc : List (Expl F)) c =>
+                            if (acc.map (·.render)).count c.render < exp.count c.render then acc ++ [c] else acc) []
+                          let distinctSum := @gMsgSum inst (kept.map (·.value))
+                          (["parts:duplicate-term-child"] ++ (if sameBits t.value distinctSum then [] else ["multi-term-score-not-sum-of-distinct-parts"]), segBr)
+                        else ([s!"parts:multi-term:want={exp.length}-children:got={got.length}"], segBr)
+              (m, verdictOf (m == impl) (rootFail ++ fails ++ partFail) (ulpBranch (logUlp t) :: brs ++ partBr ++ ["m-hit"]))
+            | none => ("unparsable-term-trees", "ok")
+          | _, _ => ("unparsable-tree", "ok")
+        | _, _ => ("unparsable-result", "ok")
+    | ["mmatchset", _cfg, corpus, mqS, _kind] =>
+        match parseMQ mqS with
+        | some q =>
+          let docs := parseDCorpus false corpus
+          let hit (d : DDoc) : Option Bool :=
+            (((d.fields.filter (·.name == q.field)).flatMap (·.tokens)).eraseDups.mapM q.sat).map (·.any id)
+          match docs.mapM (fun d => (hit d).map fun h => (d.id, h)) with
+          | some hs =>
+            let ids := (((hs.filter (·.2)).map (·.1)).toArray.qsort (· < ·)).toList
+            ((if ids.isEmpty then "-" else ",".intercalate ids), "ok br=" ++ (if ids.isEmpty then "mmatchset-empty" else "mmatchset-nonempty"))
+          | none => ("model-cannot-parse", "ok")
+        | none => ("model-cannot-parse", "ok")
     | ["nscore", cfg, corpus, field, word] =>
         -- score mode "none": the scorer is called with freq = 0 and norm = 0 whatever the document (fact
         -- `freq-norm-loaded-unless-score-none`); the generated `Score` then gives w - w/(1 + 0·normInverse): 0 for b < 1, NaN for b = 1
